@@ -42,6 +42,44 @@ def ascii_ok(x):
     return all(core.is_ascii(l) for l in x)
 
 
+def fixed_project_case(chk, rng, n):
+    from harness.impl import fordrun
+    def words(tag, k):
+        return [f"{tag}w{j}" for j in range(k)]
+    ext = rng.choice(["f", "for"])
+    lines, expect = ["      module fx_m"], {}
+    styles = ["doc", "pre", "alt", "prealt"]
+    rng.shuffle(styles)
+    for vi, sty in enumerate(styles):
+        name = f"v{vi}"
+        ind = " " * rng.choice(D.FIXED_COMMENT_COLUMNS)
+        d1, d2 = words(f"t{n}{name}a", rng.randint(9, 14)), words(f"t{n}{name}b", rng.randint(9, 14))
+        l1, l2 = " " + " ".join(d1), " " + " ".join(d2)
+        decl = f"      integer :: {name}"
+        if sty == "doc":
+            lines += [decl, f"{ind}!!{l1}", f"{ind}!!{l2}"]
+        elif sty == "pre":
+            lines += [f"{ind}!>{l1}", f"{ind}!>{l2}", decl]
+        elif sty == "alt":
+            lines += [decl, f"{ind}!*{l1}", f"{ind}!{l2}", ""]
+        else:
+            lines += [f"{ind}!|{l1}", f"{ind}!{l2}", decl]
+        expect[name] = d1 + d2
+    lines.append("      end module fx_m")
+    assert any(len(l) > 72 for l in lines)
+    with fordrun.Work({f"src/fx.{ext}": "\n".join(lines) + "\n"}) as w:
+        try:
+            p = fordrun.parse_project(str(w.root), predocmark=">", docmark_alt="*", predocmark_alt="|")
+            got = {v.name: " ".join(v.doc_list).split() for v in p.modules[0].variables}
+        except Exception as e:  # noqa
+            got = {"EXC": [type(e).__name__]}
+    chk.count(("fixedproject", tuple(lines)), nontrivial=True)
+    if got != expect:
+        chk.violation("failing-input", {"what": "words of the documentation of the variables of a fixed-form module "
+                                        "(Project): every word once and in order", "lines": lines, "fixed": True,
+                                        "project": True, "ext": ext, "impl": got, "expected": expect}, True)
+
+
 def run(chk):
     targets = ["theories/Corr/C03.vo", "theories/Corr/C01.vo", "theories/Props/C03.vo"]
     if c03doc is not None:
@@ -89,6 +127,58 @@ def run(chk):
                                "meaning": "bit0 model!=impl, bit1 statements/doc lines differ from the documented rule"},
                               bool(code & 2))
         chk.extra["reader_doc_shapes"] = shape_counts
+        # A2. the same documented statements written as fixed-form files (read through ford.fixed2free2): indented
+        #     own-line documentation lines of every style, up to ~120 columns wide (no part of a comment line is
+        #     cut at column 72), forced at least once per style and run
+        fx_cases, fx_terms = [], []
+        fx_stats = {"cases": 0, "with_indented_doc_line_wider_than_72": 0, "forced": {}}
+        fgens = [("forced", sty) for sty in ("doc", "pre", "alt", "prealt") for _ in range(2)] \
+            + [("gen", None)] * (300 if quick else 10000)
+        for kind, sty in fgens:
+            if kind == "forced":
+                marks, lines, items = D.forced_fixed_case(rng, sty)
+                wide = max(len(l) for l in lines if l.lstrip().startswith("!"))
+                assert wide > 72 and all(l.startswith(" ") for l in lines if l.lstrip().startswith("!"))
+                fx_stats["forced"][sty] = fx_stats["forced"].get(sty, 0) + 1
+            else:
+                marks, lines, items, _shapes, wide = D.gen_case_fixed(rng)
+            if not ascii_ok(lines):
+                continue
+            ll = True if kind == "forced" else rng.random() < 0.8
+            res = run_reader(lines, marks, fixed=True, length_limit=ll, workdir=work)
+            fx_cases.append((marks, ll, lines, items, res))
+            fx_stats["cases"] += 1
+            fx_stats["with_indented_doc_line_wider_than_72"] += wide > 72
+            chk.count(("fixeddocs", marks, ll, tuple(lines)), nontrivial=any(p or q for _, p, q in items),
+                      sample={"marks": marks, "lines": lines, "impl": res} if len(fx_cases) < 2 else None)
+            its = coq_list(f"({coq_str(st)}, {coq_list(coq_str(d) for d in pre)}, {coq_list(coq_str(d) for d in post)})"
+                           for st, pre, post in items)
+            fx_terms.append(f"(mkcfg {' '.join(coq_str(m) for m in marks)}, {'true' if ll else 'false'}, "
+                            f"{coq_list(coq_str(l + chr(10)) for l in lines)}, {its}, {coq_impl(res)})")
+        out = chk.coq_judge(IMPORTS, "cfg * bool * list str * list (str * list str * list str) * (list str + nat)",
+                            "judge_docs_fixed", fx_terms)
+        if out is None:
+            # the judge could not be evaluated: decide the Spec side here
+            out = {}
+            for idx, (marks, ll, lines, items, res) in enumerate(fx_cases):
+                want = [x for st, pre, post in items for x in [st] + ["!" + marks[0] + d for d in pre + post]]
+                got = [o for o in res[1] if o != "!" + marks[0]] if res[0] == "ok" else None
+                if got != want:
+                    out[idx] = 2
+        else:
+            chk.traces += len(fx_cases)
+        for idx, code in sorted(out.items()):
+            marks, ll, lines, items, res = fx_cases[idx]
+            chk.violation("failing-input" if code & 2 else "broken-correspondence",
+                          {"what": "documentation lines delivered by FortranReader(fixed=True)", "marks": marks,
+                           "length_limit": ll, "lines": lines, "fixed": True, "items": items, "impl": res, "code": code,
+                           "meaning": "bit0 model!=impl, bit1 statements/doc lines differ from the documented rule "
+                                      "(= those of the free-form rendering)"}, bool(code & 2))
+        chk.extra["fixed_form_docs"] = fx_stats
+        # A3. ... and through Project: a fixed-form module whose variables are documented in the four styles with
+        #     indented lines wider than 72 columns; every tracer word of each variable's comment once and in order
+        for n in range(3 if quick else 40):
+            fixed_project_case(chk, rng, n)
         # B. attach: the documentation lands on the declared entity (whole files, all four styles)
         tcases, tterms = [], []
         for i in range(150 if quick else 4000):
@@ -120,8 +210,12 @@ def run(chk):
 def replay(chk, rep):
     if c03doc is not None and rep.get("part") in ("admon", "meta", "e2e"):
         return c03doc.replay(chk, rep)
-    if "lines" in rep:
-        print(run_reader(rep["lines"], tuple(rep.get("marks", ("!", ">", "*", "|")))))
+    if "lines" in rep and rep.get("project"):
+        print("expected:", rep.get("expected"))
+        print("recorded:", rep.get("impl"))
+    elif "lines" in rep:
+        print(run_reader(rep["lines"], tuple(rep.get("marks", ("!", ">", "*", "|"))), fixed=bool(rep.get("fixed")),
+                         length_limit=rep.get("length_limit", True)))
     elif "text" in rep:
         r = I.parse_text(rep["text"])
         print(r[0], T.tree_term(r[1])[:3000] if r[0] == "ok" else r[1])
